@@ -25,6 +25,7 @@ pub fn streams() -> Vec<Stream> {
         Stream { name: "C11.zero", gen: gen_zero, imp: imp_zero, oracle: oracle_zero },
     ];
     v.extend(meta::streams());
+    v.extend(epoch::streams());
     v
 }
 
@@ -84,12 +85,12 @@ fn insert_at<T>(xs: &mut Vec<T>, j: usize, x: T) {
     xs.insert(j, x);
 }
 
-fn flatten(b: &[Vec<Rec>]) -> Vec<Rec> {
+fn flatten<T: Clone>(b: &[Vec<T>]) -> Vec<T> {
     b.iter().flatten().cloned().collect()
 }
 
 /// Same rule as `Driver.C11.applyOp`: unknown indices leave the log unchanged.
-fn apply_op(op: &str, base: &[Vec<Rec>], donor: &[Vec<Rec>]) -> Result<Vec<Rec>, String> {
+fn apply_op<T: Clone>(op: &str, base: &[Vec<T>], donor: &[Vec<T>]) -> Result<Vec<T>, String> {
     let parts: Vec<&str> = op.split(':').collect();
     let name = parts[0];
     let args: Vec<usize> =
@@ -326,6 +327,12 @@ fn judge(
     committed: &[WalCommittedTransaction],
     donor: &[WalCommittedTransaction],
 ) {
+    // the donor log was written under the SAME writer-epoch ids (C11-K1: only the unchecked commit
+    // chain could tell) or under FOREIGN ones (no ledger is consulted by these entry points)
+    let ids = match (committed.first(), donor.first()) {
+        (Some(c), Some(d)) if c.commit.writer_epoch != d.commit.writer_epoch => "foreign-epoch",
+        _ => "same-epoch",
+    };
     match res {
         Err(e) => o.tags.push(format!("{what}-err:{}", r_err(e).split('.').take(2).collect::<Vec<_>>().join("."))),
         Ok(r) => match shape_of(r, committed, donor) {
@@ -335,7 +342,7 @@ fn judge(
                 format!("after {opname}: {what} recovery succeeds with committed transactions {}..{} of {} — the first {a} are gone and nothing notices", a + 1, a + k, committed.len()),
             )),
             Shape::Spliced(n) => o.fails.push((
-                format!("C11.commit-chain-unchecked.transplant.{what}"),
+                format!("C11.commit-chain-unchecked.transplant.{ids}.{what}"),
                 format!("after {opname}: {what} recovery succeeds with {n} transaction(s) that were never committed to this log (spliced from a sibling log with the same LSN range); previous_committed_transaction_digest / previous_frame_digest of the successor do not match and are not compared"),
             )),
             Shape::Other(s) => o.fails.push((
@@ -1018,6 +1025,634 @@ mod meta {
             }
             for op in lops {
                 out.push(format!("{op} {lh} {sp}"));
+            }
+        }
+        out
+    }
+}
+
+// ------------------------------------------------------------------ C11.epoch (multi-epoch roots behind the writer-epoch ledger)
+
+/// Roots as a restarted host finds them: several writer epochs (closed, pruned, active), optionally one
+/// segment file per epoch, the writer-epoch ledger as the store wrote it.  Damage: whole transactions
+/// spliced from a sibling root written under the SAME or under FOREIGN writer-epoch ids, structural
+/// edits, ledger removed/damaged.  Observed through what a host runs before it trusts the root:
+/// `FilesystemWalStore::open` (ledger decode + `reconcile_writer_epoch_closures`), then
+/// `recover_filesystem_store`, `doctor_filesystem_store`, `acquire_fresh_writer_epoch`, and (oracle)
+/// `TrustedRuntimeWal::from_config`.
+mod epoch {
+    use super::*;
+    use crate::c10::build_transactions;
+    use warp_core::causal_wal::{
+        FilesystemWalStore, Lsn, WalDecodeError, WalStoreError, WalStorePort, WriterEpochId, WriterEpochRequest,
+    };
+    use warp_core::{TrustedRuntimeWal, TrustedRuntimeWalConfig};
+
+    pub fn streams() -> Vec<Stream> {
+        vec![Stream { name: "C11.epoch", gen: gen_epoch, imp: imp_epoch, oracle: oracle_epoch }]
+    }
+
+    #[derive(Clone)]
+    pub struct Plan {
+        /// transactions per writer epoch, in order
+        pub counts: Vec<usize>,
+        /// the last epoch is left active (what a crashed / restarted host leaves) or closed
+        pub fin_active: bool,
+        /// epoch i writes segment file i+1 (otherwise everything goes to segment 1)
+        pub multi: bool,
+    }
+
+    fn parse_plan(tok: &str) -> Result<Plan, String> {
+        let parts: Vec<&str> = tok.split('-').collect();
+        if parts.len() != 3 {
+            return Err(format!("bad plan {tok}"));
+        }
+        let counts: Vec<usize> =
+            parts[0].split('.').map(|s| s.parse::<usize>().map_err(|_| format!("bad plan {tok}"))).collect::<Result<_, _>>()?;
+        if counts.is_empty() || counts.len() > 8 {
+            return Err(format!("bad plan {tok}"));
+        }
+        let fin_active = match parts[1] {
+            "a" => true,
+            "c" => false,
+            _ => return Err(format!("bad plan {tok}")),
+        };
+        let multi = match parts[2] {
+            "m" => true,
+            "s" => false,
+            _ => return Err(format!("bad plan {tok}")),
+        };
+        Ok(Plan { counts, fin_active, multi })
+    }
+
+    fn render_plan(p: &Plan) -> String {
+        format!(
+            "{}-{}-{}",
+            p.counts.iter().map(|n| n.to_string()).collect::<Vec<_>>().join("."),
+            if p.fin_active { "a" } else { "c" },
+            if p.multi { "m" } else { "s" }
+        )
+    }
+
+    /// epoch 0 carries the spec's own id; epoch i>0 = BLAKE3(id ‖ [i])
+    pub fn epoch_id(base: &[u8; 32], i: usize) -> [u8; 32] {
+        if i == 0 {
+            *base
+        } else {
+            let mut v = base.to_vec();
+            v.push(i as u8);
+            *blake3::hash(&v).as_bytes()
+        }
+    }
+
+    fn seg_of(p: &Plan, i: usize) -> u64 {
+        if p.multi {
+            i as u64 + 1
+        } else {
+            1
+        }
+    }
+
+    /// the transactions of every epoch, built by the REAL builder with the chain threaded across epochs
+    fn build_groups(s: &LogSpec, p: &Plan) -> Result<Vec<Vec<WalCommittedTransaction>>, String> {
+        if p.counts.iter().sum::<usize>() != s.txs.len() {
+            return Err("plan does not cover the transactions".into());
+        }
+        let mut out = Vec::new();
+        let (mut lsn, mut pf, mut pc, mut off) = (s.first_lsn, s.pf, s.pc, 0usize);
+        for (i, n) in p.counts.iter().enumerate() {
+            let mut sub = s.clone();
+            sub.epoch = epoch_id(&s.epoch, i);
+            sub.segment = seg_of(p, i);
+            sub.first_lsn = lsn;
+            sub.pf = pf;
+            sub.pc = pc;
+            sub.txs = s.txs[off..off + n].to_vec();
+            off += n;
+            let txs = build_transactions(&sub)?;
+            if let Some(t) = txs.last() {
+                lsn = t.commit.last_lsn.as_u64() + 1;
+                if s.chain {
+                    pf = t.frames.last().map(|f| f.digest()).unwrap_or(pf);
+                    pc = t.commit.commit_digest;
+                }
+            }
+            out.push(txs);
+        }
+        Ok(out)
+    }
+
+    fn request(s: &LogSpec, i: usize, started: u64, prev: Option<([u8; 32], Option<[u8; 32]>)>) -> WriterEpochRequest {
+        let h = |label: &[u8]| {
+            let mut v = label.to_vec();
+            v.push(i as u8);
+            *blake3::hash(&v).as_bytes()
+        };
+        WriterEpochRequest {
+            epoch_id: WriterEpochId::from_hash(epoch_id(&s.epoch, i)),
+            storage_fencing_token: h(b"verif:fencing"),
+            process_identity: h(b"verif:process"),
+            host_identity: *blake3::hash(b"verif:host").as_bytes(),
+            started_at_lsn: Lsn::from_raw(started),
+            previous_epoch_id: prev.map(|p| WriterEpochId::from_hash(p.0)),
+            previous_epoch_final_commit_digest: prev.and_then(|p| p.1),
+            lease_or_lock_evidence: h(b"verif:lease"),
+        }
+    }
+
+    #[derive(Clone)]
+    pub struct RootFiles {
+        pub segs: Vec<Vec<u8>>,
+        pub ledger: Vec<u8>,
+        pub committed: Vec<WalCommittedTransaction>,
+    }
+
+    thread_local! {
+        static ROOTS: std::cell::RefCell<std::collections::HashMap<String, RootFiles>> =
+            std::cell::RefCell::new(std::collections::HashMap::new());
+    }
+
+    /// The root written by the REAL store: per epoch `open` → `acquire_writer_epoch` → appends →
+    /// `close_epoch` (not for a last epoch left active) → store dropped.  Memoised per (plan, spec).
+    pub fn write_root(s: &LogSpec, p: &Plan) -> Result<RootFiles, String> {
+        let key = format!("{} {}", render_plan(p), render_spec(s));
+        if let Some(hit) = ROOTS.with(|m| m.borrow().get(&key).cloned()) {
+            return Ok(hit);
+        }
+        if std::env::var_os("VERIF_SCRATCH").is_none() && std::path::Path::new("/dev/shm").is_dir() {
+            std::env::set_var("VERIF_SCRATCH", "/dev/shm");
+        }
+        let groups = build_groups(s, p)?;
+        let dir = Scratch::new("ep-w");
+        let mut lsn = s.first_lsn;
+        let mut prev: Option<([u8; 32], Option<[u8; 32]>)> = None;
+        for (i, txs) in groups.iter().enumerate() {
+            let seg = WalSegmentId::from_raw(seg_of(p, i));
+            let mut store = FilesystemWalStore::open(&dir.0, seg).map_err(|e| format!("open {i}: {e:?}"))?;
+            let ep = store.acquire_writer_epoch(request(s, i, lsn, prev)).map_err(|e| format!("epoch {i}: {e:?}"))?;
+            for t in txs {
+                store.append_transaction(t.clone()).map_err(|e| format!("append {i}: {e:?}"))?;
+            }
+            if let Some(t) = txs.last() {
+                lsn = t.commit.last_lsn.as_u64() + 1;
+            }
+            prev = Some((epoch_id(&s.epoch, i), txs.last().map(|t| t.commit.commit_digest)));
+            if !(i + 1 == groups.len() && p.fin_active) {
+                store.close_epoch(ep.epoch_id).map_err(|e| format!("close {i}: {e:?}"))?;
+            }
+        }
+        let nseg = if p.multi { groups.len() } else { 1 };
+        let mut segs = Vec::new();
+        for j in 0..nseg {
+            segs.push(std::fs::read(canonical_segment_path(&dir.0, WalSegmentId::from_raw(j as u64 + 1))).map_err(|e| e.to_string())?);
+        }
+        let ledger = std::fs::read(dir.0.join("writer-epochs.ecwal")).map_err(|e| e.to_string())?;
+        let v = RootFiles { segs, ledger, committed: groups.into_iter().flatten().collect() };
+        ROOTS.with(|m| {
+            let mut m = m.borrow_mut();
+            if m.len() > 48 {
+                m.clear();
+            }
+            m.insert(key, v.clone());
+        });
+        Ok(v)
+    }
+
+    struct EpochCase {
+        op: String,
+        plan: Plan,
+        ledger: Vec<u8>,
+        spec: LogSpec,
+        donor: Option<LogSpec>,
+    }
+
+    fn parse_case(t: &mut Toks) -> Result<EpochCase, String> {
+        let op = t.next()?.to_string();
+        let plan = parse_plan(t.next()?)?;
+        let ledger = crate::util::unhex(t.next()?)?;
+        let mut spec = parse_spec(t)?;
+        spec.segment = 1;
+        let donor = if t.done() {
+            None
+        } else {
+            if t.next()? != "D" {
+                return Err("expected D".into());
+            }
+            let mut d = parse_spec(t)?;
+            d.segment = 1;
+            Some(d)
+        };
+        if !t.done() {
+            return Err("trailing tokens".into());
+        }
+        Ok(EpochCase { op, plan, ledger, spec, donor })
+    }
+
+    pub struct Damaged {
+        pub dir: Scratch,
+        pub segs: Vec<Vec<u8>>,
+        pub ledger: Option<Vec<u8>>,
+        pub changed: bool,
+        pub committed: Vec<WalCommittedTransaction>,
+        pub donor: Vec<WalCommittedTransaction>,
+    }
+
+    fn tagged_blocks(segs: &[Vec<u8>]) -> Vec<Vec<(usize, Rec)>> {
+        let mut out = Vec::new();
+        for (j, b) in segs.iter().enumerate() {
+            for blk in blocks_of(b) {
+                out.push(blk.into_iter().map(|r| (j, r)).collect());
+            }
+        }
+        out
+    }
+
+    /// the damaged segment files and ledger of a case (no filesystem access beyond writing the honest roots)
+    fn damaged_files(c: &EpochCase) -> Result<(Vec<Vec<u8>>, Option<Vec<u8>>, RootFiles, Vec<WalCommittedTransaction>), String> {
+        let root = write_root(&c.spec, &c.plan)?;
+        if root.ledger != c.ledger {
+            return Err("ledger bytes in the case line are not what the store writes for this plan/spec".into());
+        }
+        let donor = match &c.donor {
+            Some(d) => Some(write_root(d, &c.plan)?),
+            None => None,
+        };
+        let mut ledger = Some(root.ledger.clone());
+        let mut segs = root.segs.clone();
+        if let Some(rest) = c.op.strip_prefix("l-") {
+            let parts: Vec<&str> = rest.split(':').collect();
+            let args: Vec<usize> =
+                parts[1..].iter().map(|s| s.parse::<usize>().map_err(|_| format!("bad op {}", c.op))).collect::<Result<_, _>>()?;
+            ledger = match (parts[0], args.as_slice()) {
+                ("del", []) => None,
+                ("flip", [p, bit]) => {
+                    let mut x = root.ledger.clone();
+                    if *p < x.len() {
+                        x[*p] ^= 1 << (bit % 8);
+                    }
+                    Some(x)
+                }
+                ("trunc", [n]) => Some(root.ledger[..(*n).min(root.ledger.len())].to_vec()),
+                _ => return Err(format!("bad op {}", c.op)),
+            };
+        } else {
+            let base = tagged_blocks(&root.segs);
+            let dblocks = donor.as_ref().map(|d| tagged_blocks(&d.segs)).unwrap_or_default();
+            let recs = apply_op(&c.op, &base, &dblocks)?;
+            segs = vec![Vec::new(); root.segs.len()];
+            for (j, r) in recs {
+                segs[j].extend_from_slice(&r);
+            }
+        }
+        Ok((segs, ledger, root, donor.map(|d| d.committed).unwrap_or_default()))
+    }
+
+    fn materialise(segs: &[Vec<u8>], ledger: &Option<Vec<u8>>) -> Result<Scratch, String> {
+        let dir = Scratch::new("ep");
+        std::fs::create_dir_all(dir.0.join("segments")).map_err(|e| e.to_string())?;
+        for (j, b) in segs.iter().enumerate() {
+            std::fs::write(canonical_segment_path(&dir.0, WalSegmentId::from_raw(j as u64 + 1)), b).map_err(|e| e.to_string())?;
+        }
+        if let Some(l) = ledger {
+            std::fs::write(dir.0.join("writer-epochs.ecwal"), l).map_err(|e| e.to_string())?;
+        }
+        Ok(dir)
+    }
+
+    fn store_err(e: WalStoreError) -> String {
+        match e {
+            WalStoreError::UnknownPreviousWriterEpoch => "epoch.unknownPrev".into(),
+            WalStoreError::MissingWriterEpochLedger => "epoch.missingLedger".into(),
+            WalStoreError::WriterEpochChainGap => "epoch.chainGap".into(),
+            WalStoreError::WriterEpochFinalCommitDigestMismatch => "epoch.finalDigest".into(),
+            WalStoreError::WriterEpochLsnRegression => "epoch.lsnRegression".into(),
+            WalStoreError::WriterEpochFencingMismatch => "epoch.fencing".into(),
+            WalStoreError::WriterEpochAlreadyActive => "epoch.alreadyActive".into(),
+            WalStoreError::WriterEpochLedgerDigestMismatch => "ledger.digest".into(),
+            WalStoreError::Decode(WalDecodeError::InvalidRecordMagic { .. }) => "decode.magic".into(),
+            other => r_err(&WalRecoveryError::Store(other)),
+        }
+    }
+
+    fn h8(h: &[u8; 32]) -> String {
+        hex::encode(&h[..8])
+    }
+
+    struct Seen {
+        open: Result<(), String>,
+        fs: Result<RecoveryScanReport, WalRecoveryError>,
+        doc: String,
+        next: String,
+    }
+
+    /// what a host runs on the root, in this order: open, read-only recovery, doctor, then (mutating,
+    /// last) `acquire_fresh_writer_epoch`
+    fn observe(dir: &Scratch, nseg: usize) -> Seen {
+        let seg = WalSegmentId::from_raw(nseg as u64);
+        let opened = FilesystemWalStore::open(&dir.0, seg);
+        let fs = recover_filesystem_store(&dir.0, RecoveryAccessMode::ReadOnly);
+        let doc = match doctor_filesystem_store(&dir.0) {
+            Ok(d) => match d.posture {
+                WalDoctorPosture::Recoverable => "R",
+                WalDoctorPosture::RecoverableWithUncommittedTail => "T",
+                WalDoctorPosture::Obstructed => "O",
+            }
+            .to_string(),
+            Err(e) => format!("E{}", r_err(&e)),
+        };
+        let (open, next) = match opened {
+            Err(e) => (Err(store_err(e)), "-".to_string()),
+            Ok(mut store) => {
+                let next = match store.acquire_fresh_writer_epoch(Lsn::from_raw(0)) {
+                    Ok(ep) => format!(
+                        "ok {} {} {} {}",
+                        h8(&ep.epoch_id.as_hash()),
+                        ep.started_at_lsn.as_u64(),
+                        ep.previous_epoch_id.map(|i| h8(&i.as_hash())).unwrap_or_else(|| "-".into()),
+                        ep.previous_epoch_final_commit_digest.map(|d| h8(&d)).unwrap_or_else(|| "-".into())
+                    ),
+                    Err(e) => format!("err {}", store_err(e)),
+                };
+                (Ok(()), next)
+            }
+        };
+        Seen { open, fs, doc, next }
+    }
+
+    fn imp_epoch(t: &mut Toks) -> Result<String, String> {
+        let c = parse_case(t)?;
+        let (segs, ledger, _, _) = damaged_files(&c)?;
+        let dir = materialise(&segs, &ledger)?;
+        let seen = observe(&dir, segs.len());
+        let mut all = Vec::new();
+        for b in &segs {
+            all.extend_from_slice(&(b.len() as u64).to_le_bytes());
+            all.extend_from_slice(b);
+        }
+        Ok(format!(
+            "segs={} dig {} open: {} ; next: {} ; fs: {} ; doc {}",
+            segs.len(),
+            hex::encode(blake3::hash(&all).as_bytes()),
+            match &seen.open {
+                Ok(()) => "ok".to_string(),
+                Err(e) => format!("err {e}"),
+            },
+            seen.next,
+            match &seen.fs {
+                Ok(r) => format!("ok {}", long_report(r)),
+                Err(x) => format!("err {}", r_err(x)),
+            },
+            seen.doc
+        ))
+    }
+
+    /// index of the epoch that wrote transaction `k` under the plan
+    fn epoch_of(p: &Plan, k: usize) -> usize {
+        let mut acc = 0;
+        for (i, n) in p.counts.iter().enumerate() {
+            acc += n;
+            if k < acc {
+                return i;
+            }
+        }
+        p.counts.len().saturating_sub(1)
+    }
+
+    /// does the ledger the store left behind still hold epoch `i`?  (retained: the active epoch and
+    /// the LAST closed one — WAL_WRITER_EPOCH_RETAINED_CLOSED_LIMIT = 1)
+    fn retained(p: &Plan, i: usize) -> bool {
+        let n = p.counts.len();
+        let closed = if p.fin_active { n - 1 } else { n };
+        (p.fin_active && i == n - 1) || (closed >= 1 && i == closed - 1)
+    }
+
+    fn oracle_epoch(t: &mut Toks, _: Tier) -> Result<OracleOut, String> {
+        let c = parse_case(t)?;
+        let (segs, ledger, root, donor) = damaged_files(&c)?;
+        let mut o = OracleOut::default();
+        let name = opname(&c.op);
+        let changed = segs != root.segs || ledger.as_ref() != Some(&root.ledger);
+        let dir = materialise(&segs, &ledger)?;
+        let seen = observe(&dir, segs.len());
+        let same_ids = c.donor.as_ref().is_some_and(|d| d.epoch == c.spec.epoch);
+        // which transaction position the op targets (for the class of an accepted splice)
+        let pos = c.op.split(':').nth(1).and_then(|s| s.parse::<usize>().ok()).unwrap_or(0);
+        let target_retained = retained(&c.plan, epoch_of(&c.plan, pos));
+        let splice_key = |gate: &str| {
+            if same_ids {
+                format!("C11.commit-chain-unchecked.transplant.same-epoch.{gate}")
+            } else if !target_retained {
+                format!("C11.pruned-epoch-unchecked.{name}.{gate}")
+            } else {
+                format!("C11.foreign-epoch-accepted.{name}.{gate}")
+            }
+        };
+        let splice_text = |n: usize, gate: &str| {
+            if same_ids {
+                format!("after {name}: {gate} accepts a history with {n} transaction(s) never committed to this log, spliced from a sibling log written under the SAME writer-epoch ids — only previous_committed_transaction_digest / previous_frame_digest could tell, and they are not compared")
+            } else if !target_retained {
+                format!("after {name}: {gate} accepts {n} transaction(s) of a FOREIGN writer epoch inside the range of an epoch the bounded ledger has already pruned (markers below the retained start LSN are not checked)")
+            } else {
+                format!("after {name}: {gate} accepts {n} transaction(s) written under writer-epoch ids the ledger does not know, inside the range of an epoch it still holds — reconcile_writer_epoch_closures must fail with UnknownPreviousWriterEpoch")
+            }
+        };
+        // gate 1: what a restarting host does — open the store, then scan it
+        match (&seen.open, &seen.fs) {
+            (Err(e), _) => o.tags.push(format!("root-open-err:{e}")),
+            (Ok(()), Err(e)) => o.tags.push(format!("root-recover-err:{}", r_err(e).split('.').take(2).collect::<Vec<_>>().join("."))),
+            (Ok(()), Ok(r)) => match shape_of(r, &root.committed, &donor) {
+                Shape::Prefix(k) => {
+                    o.tags.push(format!("root-prefix:{}", if k == root.committed.len() { "all".into() } else { k.to_string() }));
+                    if ledger.is_none() && !root.committed.is_empty() && k > 0 {
+                        o.fails.push(("C11.ledger-missing-accepted".into(), "the writer-epoch ledger file is gone, the log holds commits, and the store opens".into()));
+                    }
+                }
+                Shape::HeadLost(a, k) => o.fails.push((
+                    "C11.log-head-unanchored.root".into(),
+                    format!("after {name}: the store opens and recovery returns committed transactions {}..{} of {} — the first {a} are gone; the ledger's started_at_lsn is not used as an anchor", a + 1, a + k, root.committed.len()),
+                )),
+                Shape::Spliced(n) => o.fails.push((splice_key("root"), splice_text(n, "open + recover_filesystem_store"))),
+                Shape::Other(s) => o.fails.push((
+                    format!("C11.non-prefix-recovered.{name}.root"),
+                    format!("after {name}: the store opens and recovery succeeds with {s}, committed was T1..T{}", root.committed.len()),
+                )),
+            },
+        }
+        // recovery alone never consults the ledger (evidence only; the gate above is the property)
+        if let (Err(_), Ok(r)) = (&seen.open, &seen.fs) {
+            if !matches!(shape_of(r, &root.committed, &donor), Shape::Prefix(_)) {
+                o.tags.push("ledger-is-the-only-barrier".into());
+            }
+        }
+        if seen.fs.is_err() && seen.doc != "O" {
+            o.fails.push(("C11.doctor-healthy-on-error".into(), format!("doctor posture {} although read-only recovery fails", seen.doc)));
+        }
+        if !changed {
+            if let Err(e) = &seen.open {
+                o.fails.push(("C11.root-intact-rejected".into(), format!("the store does not reopen on its own untouched root: {e}")));
+            }
+            if seen.next.starts_with("err") {
+                o.fails.push(("C11.root-intact-rejected.next-epoch".into(), format!("no successor epoch on an untouched root: {}", seen.next)));
+            }
+        }
+        // gate 2: the trusted runtime host's own adapter on a fresh copy of the damaged root
+        let hdir = materialise(&segs, &ledger)?;
+        let committed_digests: Vec<[u8; 32]> = root.committed.iter().map(|t| t.commit.commit_digest).collect();
+        match TrustedRuntimeWal::from_config(TrustedRuntimeWalConfig::filesystem(&hdir.0)) {
+            Err(_) => o.tags.push("host-err".into()),
+            Ok(wal) => {
+                let adopted: Vec<[u8; 32]> = wal.commits().iter().map(|c| c.commit_digest).collect();
+                let is_prefix = adopted.len() <= committed_digests.len() && adopted[..] == committed_digests[..adopted.len()];
+                if is_prefix {
+                    o.tags.push(format!("host-prefix:{}", if adopted.len() == committed_digests.len() { "all".into() } else { adopted.len().to_string() }));
+                } else {
+                    let foreign = adopted.iter().filter(|d| !committed_digests.contains(d)).count();
+                    if foreign > 0 && adopted.len() == committed_digests.len() {
+                        o.fails.push((splice_key("host"), splice_text(foreign, "TrustedRuntimeWal::from_config")));
+                    } else if foreign == 0 && !adopted.is_empty() && committed_digests.ends_with(&adopted) {
+                        o.fails.push(("C11.log-head-unanchored.host".into(), format!("after {name}: TrustedRuntimeWal::from_config adopts a suffix of the committed history ({} of {} commits)", adopted.len(), committed_digests.len())));
+                    } else {
+                        o.fails.push((format!("C11.non-prefix-recovered.{name}.host"), format!("after {name}: TrustedRuntimeWal::from_config adopts {} commits, {foreign} of them never committed to this log", adopted.len())));
+                    }
+                }
+            }
+        }
+        o.tags.push(format!("op:{name}"));
+        o.tags.push(format!("plan:{}epochs-{}-{}", c.plan.counts.len(), if c.plan.fin_active { "active" } else { "closed" }, if c.plan.multi { "multiseg" } else { "oneseg" }));
+        if c.donor.is_some() {
+            o.tags.push(format!("donor:{}:{}", if same_ids { "same-ids" } else { "foreign-ids" }, if target_retained { "retained-range" } else { "pruned-range" }));
+        }
+        o.nontrivial = changed && root.committed.len() >= 2;
+        Ok(o)
+    }
+
+    /// a log every transaction of which is a host-shaped submission acceptance (2 records: the
+    /// acceptance record and its evidence digest), LSNs from 0, chain threaded — what
+    /// `TrustedRuntimeWal::from_config` accepts semantically
+    fn host_spec(rng: &mut Rng, ntx: usize, flavor: u8) -> LogSpec {
+        let h = |a: &[u8]| *blake3::hash(a).as_bytes();
+        let mut txs = Vec::new();
+        for i in 0..ntx {
+            let sid = h(&[0x51, flavor, i as u8]);
+            let env = h(&[0x52, flavor, i as u8]);
+            let evd = h(&[0x53, flavor, i as u8]);
+            let mut payload = Vec::new();
+            payload.extend_from_slice(&sid);
+            payload.extend_from_slice(&env);
+            payload.push(0);
+            payload.extend_from_slice(&evd);
+            txs.push(crate::c10::TxSpec {
+                txid: h(&[0x54, flavor, i as u8]),
+                kind: 1,
+                records: vec![(1, payload), (2, evd.to_vec())],
+                frontiers: vec![(1, h(&[0x55, flavor, i as u8]), h(&[0x56, flavor, i as u8]))],
+            });
+        }
+        LogSpec {
+            epoch: h(&[0xE0, flavor]),
+            segment: 1,
+            codec: h(b"verif:codec"),
+            schema: h(b"verif:schema"),
+            schema_version: 1,
+            encoding_version: 1,
+            domain: h(b"verif:domain"),
+            durability: rng.range(1, 5),
+            chain: true,
+            pf: h(&[0xF0, flavor]),
+            pc: h(&[0xF8, flavor]),
+            first_lsn: 0,
+            txs,
+        }
+    }
+
+    fn split_plan(rng: &mut Rng, ntx: usize, nep: usize, fin_active: bool, multi: bool) -> Plan {
+        // every epoch but possibly the last commits at least one transaction
+        let mut counts = vec![1usize; nep];
+        let mut left = ntx.saturating_sub(nep);
+        if fin_active && ntx >= nep && rng.chance(1, 4) {
+            // a restarted host that has not committed anything yet
+            counts[nep - 1] = 0;
+            left += 1;
+        }
+        while left > 0 {
+            let i = rng.below(nep as u64) as usize;
+            counts[i] += 1;
+            left -= 1;
+        }
+        Plan { counts, fin_active, multi }
+    }
+
+    fn gen_epoch(rng: &mut Rng, tier: Tier) -> Vec<String> {
+        let roots = if tier == Tier::Thorough { 24 } else { 5 };
+        let mut out = Vec::new();
+        for ri in 0..roots {
+            // shapes: [closed, active] first (the restarted host), then 1 / 3 epochs, closed tails, multi-segment
+            let (nep, fin_active, multi) = match ri % 5 {
+                0 => (2, true, false),
+                1 => (2, true, true),
+                2 => (3, true, ri % 2 == 0),
+                3 => (1, true, false),
+                _ => (2, false, rng.chance(1, 2)),
+            };
+            let hostlike = ri % 2 == 0;
+            let spec = if hostlike {
+                let n = rng.range(nep as u64 + 1, 5) as usize;
+                host_spec(rng, n, ri as u8)
+            } else {
+                loop {
+                    let mut s = gen_spec(rng, 5, 8);
+                    s.segment = 1;
+                    // the store refuses a successor epoch that starts at u64 overflow; keep LSNs small enough
+                    if s.txs.len() > nep {
+                        break s;
+                    }
+                }
+            };
+            let ntx = spec.txs.len();
+            let plan = split_plan(rng, ntx, nep, fin_active, multi);
+            let Ok(root) = write_root(&spec, &plan) else { continue };
+            let (pl, lh, sp) = (render_plan(&plan), crate::util::hex(&root.ledger), render_spec(&spec));
+            // donors: same shape, different content; once under the SAME epoch ids, once under FOREIGN ones
+            let mut same = if hostlike { host_spec(rng, ntx, ri as u8 ^ 0x80) } else { donor_of(rng, &spec, 0, false) };
+            if hostlike {
+                same.durability = spec.durability;
+            } else {
+                for k in 0..ntx {
+                    let d = donor_of(rng, &spec, k, false);
+                    same.txs[k] = d.txs[k].clone();
+                }
+            }
+            same.epoch = spec.epoch;
+            let mut foreign = same.clone();
+            foreign.epoch = *blake3::hash(&[0xEF, ri as u8]).as_bytes();
+            let (sd, fd) = (render_spec(&same), render_spec(&foreign));
+            out.push(format!("none {pl} {lh} {sp}"));
+            for k in 0..ntx {
+                out.push(format!("transplant:{k} {pl} {lh} {sp} D {fd}"));
+                out.push(format!("transplant:{k} {pl} {lh} {sp} D {sd}"));
+                if tier == Tier::Thorough || rng.chance(1, 2) {
+                    out.push(format!("transplant-commit:{k} {pl} {lh} {sp} D {fd}"));
+                }
+                if tier == Tier::Thorough || rng.chance(1, 3) {
+                    out.push(format!("del-tx:{k} {pl} {lh} {sp}"));
+                    out.push(format!("dup-tx:{k} {pl} {lh} {sp}"));
+                }
+            }
+            let nrec: usize = spec.txs.iter().map(|t| t.records.len() + 1).sum();
+            for _ in 0..(if tier == Tier::Thorough { 8 } else { 2 }) {
+                let i = rng.below(nrec as u64);
+                out.push(format!("transplant-frame:{i} {pl} {lh} {sp} D {fd}"));
+                out.push(format!("del:{i} {pl} {lh} {sp}"));
+                out.push(format!("swap:{i} {pl} {lh} {sp}"));
+            }
+            // the ledger itself
+            let llen = root.ledger.len();
+            out.push(format!("l-del {pl} {lh} {sp}"));
+            for _ in 0..(if tier == Tier::Thorough { 24 } else { 4 }) {
+                out.push(format!("l-flip:{}:{} {pl} {lh} {sp}", rng.below(llen as u64), rng.below(8)));
+            }
+            for n in [0usize, 17, llen / 2, llen - 1] {
+                out.push(format!("l-trunc:{n} {pl} {lh} {sp}"));
             }
         }
         out
